@@ -194,6 +194,7 @@ def handle (w : World) (line : String) : World × String :=
     match (kv toks "base").bind unhex with
     | some b => let (w', _) := step w (.removeFamily b); (w', "ok")
     | none => (w, "bad-op")
+  | "note" :: _ => (w, "note")
   | ["keys"] => (w, "keys=" ++ keysStr (w.st.entries.map (·.1)))
   | "heap" :: toks =>
     match parseItems toks with
